@@ -19,5 +19,7 @@ fn main() {
         ("crashchild", rates_mode::crashchild),
         ("arith", rates_mode::arith),
         ("histf", rates_mode::histf),
+        ("doc", rates_mode::doc),
+        ("jsonnum", rates_mode::jsonnum),
     ]);
 }
